@@ -486,6 +486,10 @@ func wktCoord(r *rand.Rand, style int) float64 {
 		case 2:
 			return (r.Float64()*2 - 1) * 180 // full precision, 1e-4 <= |x| < 1e21 (almost surely)
 		case 3:
+			if r.Intn(3) == 0 { // whole numbers around the int64 / uint64 / 2^53 boundaries and powers of ten
+				m := []float64{9007199254740992, 9223372036854775808, 18446744073709551616, 1e15, 1e16, 1e17, 1e18, 1e19, 9.5e18, 4294967296, 2147483648}[r.Intn(11)]
+				return math.Copysign(m*[]float64{1, 1, 1.5, 0.999999999999, 1.000000000001}[r.Intn(5)], float64(r.Intn(2)*2-1))
+			}
 			return []float64{0, math.Copysign(0, -1), 1, -1, 0.5, 1e20, 123456789012345680000, 0.0001, -0.0001234}[r.Intn(9)]
 		default:
 			return float64(r.Intn(1<<21+1) - 1<<20)
